@@ -795,6 +795,14 @@ def cli_classifier(inner, prefixes):
                                "map_connection_ids_from_iter): " + ",".join(rejected) +
                                f" (re-run: VERIF_CLI_BIN=harness/target-cli/release VERIF_CLI_WORK=work/x harness/target/debug/vharness cli {t[1].split('.')[0]} <n>)")
                 info["ignore"] = False
+            elif [d for d in rel if d.startswith("train-model-unreadable")]:
+                # C15 on the program itself: the model file written by the real `train` cannot be read back by read_model (or
+                # generated from), although the same training in process writes and reads fine
+                t = line.split()
+                info["prop_fail"] = "model-written-by-train-cannot-be-read-back"
+                info["why"] = ("the model file written by the real `train` program is rejected by Model::read_model / generation "
+                               f"(re-run: VERIF_CLI_BIN=harness/target-cli/release VERIF_CLI_WORK=work/x harness/target/debug/vharness cli {t[1].split('.')[0]} <n>)")
+                info["ignore"] = False
             elif [d for d in rel if d.startswith("reorder-order-not-by-frequency")]:
                 # C13 on the program itself: the ids written by the real `reorder` are not ordered by the number of
                 # connection-cost evaluations over the given sentences (the library's counter, tied to the model by the C13 stream)
